@@ -5,6 +5,7 @@ mod ebytes;
 mod elines;
 mod elines2;
 mod etree;
+mod faults;
 mod gram;
 mod hist;
 mod tags;
@@ -75,6 +76,7 @@ fn dispatch(prop: &str, tier: &str) -> i32 {
         "C14" => tags::run_c14(tier),
         "C17" => conf::run_c17(tier),
         "C11" => etree::run_c11(tier),
+        "C04" => faults::run_c04(tier),
         "C18" => ebytes::run_c18(tier),
         "C06" | "C07" | "C08" | "C09" | "C10" => hist::run_property(prop, tier),
         "C02" | "C03" | "C05" => sched::run_property(prop, tier),
@@ -94,6 +96,7 @@ fn dispatch_replay(prop: &str, v: &serde_json::Value) -> bool {
         "U-tag" => tags::replay(v),
         "E-conf" => conf::replay(v),
         "E-tree" => etree::replay(v),
+        "X" => faults::replay(v),
         "E-bytes" => ebytes::replay(v),
         "H" => hist::replay(v),
         e => {
